@@ -249,6 +249,22 @@ register('C06',
          'DESIGN.md 5/C06')
 
 
+register('C08',
+         'HnpWindows.tla specifies how the nonce checks turn a batch into lattice problems (per curve and issuer, duplicates '
+         'removed, windows of 24/48/120 with early stop) and the documented margins; TLC checks for every group size 0..260 that '
+         'each pass partitions the unique list, that up to 120 signatures one call sees the whole group and up to 24 exactly one '
+         'call is made. HnpGrid.tla generates with TLC the layouts: bias class (top bits zero, common prefix, common postfix, '
+         'multiplied form, U2F, GMP truncated LCG of each shipped size) x curve x bias width on the margin x partner groups '
+         '(healthy same / other curve, second biased issuer) x interleaving x duplicates. Each layout is signed with the reference '
+         'signer (LCG nonces from the system libgmp itself), run through the real check with the solver entry wrapped, and '
+         'HnpTrace.tla decides: every signature of a must-group flagged with the correct key, other issuers keep their verdict, '
+         'no flag without a correct key, multiset of solver-call sizes equals the specification\'s.',
+         'Trusted: TLC, reference signer, reference multiplication of the recorded key, libgmp. Success of lattice reduction on the '
+         'margin is the claim itself (catalogue instances); misses of the multiplied form at exactly 2x the curve size are known findings.',
+         'TLA+ spec (HnpWindows.tla) model-checked with TLC + TLC-generated layout grid signed and replayed + TLC trace validation (HnpTrace.tla)',
+         'DESIGN.md 5/C08')
+
+
 def main():
   props = [json.loads(l)['id'] for l in open(os.path.join(HOME, 'properties.jsonl'))]
   checks = []
